@@ -378,6 +378,52 @@ static void check_dataset(const std::string & root, const std::string & ds)
               V(ds + ":rej:cell", ctx + fmt(": accepted pair (%.17g, %.17g) is not the point (%.17g, %.17g) selected by the deviates of the accepted trial on the grid [%g, %g]", e1, e2, x1, x2, x.emin, x.emax));
           }
         }
+    // scripted rejection runs: K rejected trials followed by an accepted one must give exactly the pair of the accepted trial
+    // alone, whatever K (a bounded retry that falls through with its last rejected proposal is seen at its bound)
+    {
+      std::vector<std::vector<double>> acc, rej;
+      for (double a : {0.03, 0.25, 0.4, 0.6, 0.97})
+        for (double b : {0.03, 0.25, 0.4, 0.6, 0.97})
+          for (double c : {1e-12, 1 - 1e-12}) {
+            Seq r;
+            r.v = {a, b, c};
+            r.horizon = 300000;
+            double e1, e2;
+            try { g.shoot_e1_e2(r, e1, e2); } catch (std::exception &) { continue; }
+            (r.i == 3 ? acc : rej).push_back({a, b, c});
+          }
+      if (!acc.empty() && !rej.empty()) {
+        const long Ks[] = {1, 2, 3, 10, 99, 100, 101, 255, 256, 257, 999, 1000, 1001, 4095, 4096, 4097, 9999, 10000, 10001, 32767, 32768, 32769, 65535, 65536, 65537, 99990};
+        // (every bound up to 10001 on every dataset; the longer scripts on the first dataset that has both kinds of trials)
+        static bool long_done = false;
+        const size_t nK = long_done ? 19 : sizeof Ks / sizeof Ks[0];
+        long_done = true;
+        for (size_t ia = 0; ia < 1; ia++)
+          for (size_t ir = 0; ir < rej.size(); ir += std::max<size_t>(1, rej.size() - 1)) {
+            Seq r0;
+            r0.v = acc[ia];
+            double x1 = -1, x2 = -1;
+            g.shoot_e1_e2(r0, x1, x2);
+            for (size_t ik = 0; ik < nK; ik++) {
+              long K = Ks[ik];
+              Seq r;
+              r.horizon = 300000;
+              for (long k = 0; k < K; k++) r.v.insert(r.v.end(), rej[ir].begin(), rej[ir].end());
+              r.v.insert(r.v.end(), acc[ia].begin(), acc[ia].end());
+              double e1 = -1, e2 = -1;
+              bool threw = false;
+              g_eval++;
+              try { g.shoot_e1_e2(r, e1, e2); } catch (std::exception &) { threw = true; }
+              if (threw || e1 != x1 || e2 != x2 || r.i != (size_t)(3 * (K + 1))) {
+                V(ds + ":rej:script", fmt("%s: %ld rejected trials (%.3g,%.3g,%.3g) then the accepted trial (%.3g,%.3g,%.3g): pair (%.17g, %.17g) after %zu deviates%s, the accepted trial alone gives (%.17g, %.17g)",
+                                          ds.c_str(), K, rej[ir][0], rej[ir][1], rej[ir][2], acc[ia][0], acc[ia][1], acc[ia][2], e1, e2, r.i, threw ? " (exception)" : "", x1, x2));
+                break;
+              }
+              g_nontrivial++;
+            }
+          }
+      }
+    }
   } catch (std::exception & e) {
     V(ds + ":rej:init", ds + ": rejection generator does not initialise on an encoder-written dataset: " + e.what());
   }
